@@ -26,6 +26,9 @@ from pharmpy.model import DatasetError  # noqa: E402
 
 TAB = chr(9)
 NL = chr(10)
+# VH_REAL=1: second-stage confirmation of a counterexample: the same obligations evaluated concretely with NO stubs
+# (real numpy, real StringIO, real pandas row reader, real $INPUT record parsed by the real NM-TRAN parser).
+REAL = os.environ.get('VH_REAL') == '1'
 
 
 def _env_int(name, default):
@@ -112,7 +115,13 @@ def rowsplit(row: str) -> bool:
     pre: row_in_claim(row)
     post: _ == True
     """
-    got = re.compile(SEP).split(row.strip())
+    if REAL:
+        import pandas as pd
+        df = pd.read_table(StringIO(row + NL), sep=SEP, na_filter=False, header=None, engine='python', quoting=3,
+                           dtype=object, index_col=False)
+        got = [str(v) for v in df.iloc[0]]
+    else:
+        got = re.compile(SEP).split(row.strip())
     return got == ref_fields(row)
 
 
@@ -152,6 +161,7 @@ class _Probe(D.NMTRANDataIO, _Capture):
 IGN = os.environ.get('VH_IGN', '#')          # ignore character for this process ('' = not given)
 PRE_MAX = _env_int('VH_PREMAX', 4)
 PRE_FIRST = _env_int('VH_PREFIRST', -1)
+PRE_LEN = _env_int('VH_PRELEN', -1)
 PRE_BLANKPOS = os.environ.get('VH_BLANKPOS', '')   # 'last' | 'inner' | ''
 PRE_LASTKIND = os.environ.get('VH_LASTKIND', '')   # 'comment' | 'data' | ''
 
@@ -204,15 +214,17 @@ def ref_prefilter(text):
         out = out + last
     for ln in kept:
         if ' ' + TAB in ln:
-            return ('error', 'space before TAB')
+            return ('error', '')
     for ln in kept:
         if is_blank_line(ln):
-            return ('error', 'blank line')
+            return ('error', '')
     return ('ok', out)
 
 
 def run_prefilter(text):
     try:
+        if REAL:
+            return ('ok', D.NMTRANDataIO(StringIO(text), IGN).read())
         p = _Probe(_Src(text), IGN)
     except DatasetError:
         return ('error', '')
@@ -220,6 +232,8 @@ def run_prefilter(text):
 
 
 def _pre_split(text):
+    if PRE_LEN >= 0 and len(text) != PRE_LEN:
+        return False
     if PRE_FIRST >= 0 and (len(text) < 1 or text[0] != PREALPHA[PRE_FIRST]):
         return False
     return True
@@ -388,7 +402,8 @@ class FakeNp:
         return Rec(s)
 
 
-D.np = FakeNp
+if not REAL:
+    D.np = FakeNp
 
 ITEMALPHA = os.environ.get('VH_ITEMALPHA', '19.+-EDd')
 ITEM_MAX = _env_int('VH_ITEMMAX', 4)
@@ -439,11 +454,18 @@ def ref_item(x, null_value):
     if x == MDT:
         return ('nan',)
     if x == '+' or x == '-':
-        return ('zero',)
+        return ('value', 0.0) if REAL else ('zero',)
     p = parse_item(x)
     if p is None:
         return ('illegal',)
+    if REAL:
+        return ('value', _value(p))
     return ('num', p)
+
+
+def _value(parts):
+    neg, mant, eneg, ed = parts
+    return float(('-' if neg else '') + mant + ('E' + ('-' if eneg else '') + ed if ed else ''))
 
 
 def run_item(x, null_value):
@@ -451,6 +473,8 @@ def run_item(x, null_value):
         got = D._convert_data_item(x, null_value, MDT)
     except DatasetError:
         return ('illegal',)
+    if REAL:
+        return ('nan',) if got != got else ('value', float(got))
     if got is NAN:
         return ('nan',)
     if isinstance(got, Rec):
@@ -533,23 +557,19 @@ def item_null(kind: int, nv: int) -> bool:
     """
     x = ['.', '', None][kind]
     null_value = NULLVALUES[nv]
-    try:
-        got = D._convert_data_item(x, null_value, MDT)
-    except DatasetError:
-        return False
-    if null_value in '+-':
-        return isinstance(got, float) and got == 0.0
-    return isinstance(got, Rec) and got.s == null_value
+    expected = ref_item(null_value, '0')     # the value of the NULL option read as an item
+    return expected[0] != 'illegal' and run_item(x, null_value) == expected
 
 
-LONGALPHA = '12.E+'
+LONGALPHA = '12.E'
+LONG_N = _env_int('VH_LONGN', -1)
 
 
 def item_long(n: int, tail: str) -> bool:
     """
     24-character rule: an item of 25 or more characters is refused; 24 characters are still read.  The item is
     '1' * n followed by a symbolic tail.
-    pre: 20 <= n <= 25 and 1 <= len(tail) <= 3
+    pre: 21 <= n <= 25 and 1 <= len(tail) <= 2 and (LONG_N < 0 or n == LONG_N)
     pre: all(c in LONGALPHA for c in tail)
     post: _ == True
     """
@@ -619,7 +639,7 @@ def item_null__twin(kind: int, nv: int) -> bool:
 
 def item_long__twin(n: int, tail: str) -> bool:
     """
-    pre: 20 <= n <= 25 and 1 <= len(tail) <= 3
+    pre: 21 <= n <= 25 and 1 <= len(tail) <= 2 and (LONG_N < 0 or n == LONG_N)
     pre: all(c in LONGALPHA for c in tail)
     post: _ == True
     """
@@ -665,10 +685,10 @@ RESERVED = ['ID', 'DV', 'TIME', 'AMT']
 NKINDS = 12
 
 
-def col_option(kind, pos):
+def _col_table(pos):
     name = 'C%d' % pos
     res = RESERVED[pos % len(RESERVED)]
-    table = [
+    return [
         (name, None, (name, False, name, None)),
         ('DROP', None, 'anon'),
         ('SKIP', None, 'anon'),
@@ -682,7 +702,23 @@ def col_option(kind, pos):
         (res, 'DROP', (res, True, res, None)),
         (name, 'X%d' % pos, 'error'),
     ]
-    return table[kind]
+
+
+COL_TABLES = [_col_table(pos) for pos in range(4)]
+COL_N = _env_int('VH_COLN', -1)
+COL_K0 = _env_int('VH_COLK0', -1)
+
+
+def col_option(kind, pos):
+    return COL_TABLES[pos][kind]
+
+
+def _col_split(n, k0):
+    if COL_N >= 0 and n != COL_N:
+        return False
+    if COL_K0 >= 0 and k0 != COL_K0:
+        return False
+    return True
 
 
 def columns(n: int, k0: int, k1: int, k2: int, k3: int, cut: int) -> bool:
@@ -690,14 +726,22 @@ def columns(n: int, k0: int, k1: int, k2: int, k3: int, cut: int) -> bool:
     $INPUT option lists of n <= COL_MAX options (split over two records at `cut`), each option one of: name, DROP,
     SKIP, name=DROP, name=SKIP, DROP=name, SKIP=name, reserved, reserved=synonym, synonym=reserved, reserved=DROP,
     name=other name (refused).
-    pre: 0 <= n <= COL_MAX and 0 <= cut <= n
+    pre: 0 <= n <= COL_MAX and 0 <= cut <= n and _col_split(n, k0)
     pre: 0 <= k0 < NKINDS and 0 <= k1 < NKINDS and 0 <= k2 < NKINDS and 0 <= k3 < NKINDS
     post: _ == True
     """
     kinds = [k0, k1, k2, k3][:n]
     opts = [col_option(k, i) for i, k in enumerate(kinds)]
     pairs = [(o[0], o[1]) for o in opts]
-    stream = _Stream([_InputRecord(pairs[:cut]), _InputRecord(pairs[cut:])])
+    if REAL:
+        from pharmpy.model.external.nonmem.nmtran_parser import NMTranParser
+        text = '$PROBLEM\n'
+        for part in (pairs[:cut], pairs[cut:]):
+            if part:
+                text += '$INPUT ' + ' '.join(k if v is None else k + '=' + v for k, v in part) + '\n'
+        stream = NMTranParser().parse(text)
+    else:
+        stream = _Stream([_InputRecord(pairs[:cut]), _InputRecord(pairs[cut:])])
     exp_names, exp_drop, exp_given, exp_repl = [], [], [], {}
     anon = 0
     error = False
@@ -728,7 +772,7 @@ def columns(n: int, k0: int, k1: int, k2: int, k3: int, cut: int) -> bool:
 
 def columns__twin(n: int, k0: int, k1: int, k2: int, k3: int, cut: int) -> bool:
     """
-    pre: 0 <= n <= COL_MAX and 0 <= cut <= n
+    pre: 0 <= n <= COL_MAX and 0 <= cut <= n and _col_split(n, k0)
     pre: 0 <= k0 < NKINDS and 0 <= k1 < NKINDS and 0 <= k2 < NKINDS and 0 <= k3 < NKINDS
     post: _ == True
     """
